@@ -77,7 +77,7 @@ def _ub_reports(stderr, jobs_by_id):
     return res
 
 
-def run_shard(chk, tag, shard_no, jobs, seeds_path, alarm, max_crashes=12):
+def run_shard(chk, tag, shard_no, jobs, seeds_path, alarm, max_crashes=12, env_extra=None):
     """Run one shard; after a crash restart behind the crashed job. Returns (lines, crashes)."""
     lines = []
     crashes = []
@@ -88,7 +88,7 @@ def run_shard(chk, tag, shard_no, jobs, seeds_path, alarm, max_crashes=12):
         out = chk.path(f"{tag}-trace-{shard_no}-{attempt}.ndjson")
         vf.write_ndjson(inp, rest)
         r = vf.qxv("codec", out, in_path=inp, seed=chk.seed + 1000 * shard_no + attempt, tier=chk.tier,
-                   opts={"seeds": seeds_path, "alarm": alarm}, env=SAN_ENV, check=False, timeout=6000)
+                   opts={"seeds": seeds_path, "alarm": alarm}, env=dict(SAN_ENV, **(env_extra or {})), check=False, timeout=6000)
         got = _read_trace(out)
         lines += got
         crashes += _ub_reports(r["stderr"], {j.get("id"): j for j in rest})
@@ -115,14 +115,14 @@ def run_shard(chk, tag, shard_no, jobs, seeds_path, alarm, max_crashes=12):
     return lines, crashes
 
 
-def run_jobs(chk, tag, jobs, seeds_path, alarm=60, procs=PROCS):
+def run_jobs(chk, tag, jobs, seeds_path, alarm=60, procs=PROCS, env_extra=None):
     """Distribute jobs round-robin over `procs` harness processes. Returns (trace paths, all lines, crashes)."""
     shards = [jobs[i::procs] for i in range(procs)]
     all_lines = []
     crashes = []
     paths = []
     with concurrent.futures.ThreadPoolExecutor(max_workers=procs) as ex:
-        futs = [ex.submit(run_shard, chk, tag, i, sh, seeds_path, alarm) for i, sh in enumerate(shards) if sh]
+        futs = [ex.submit(run_shard, chk, tag, i, sh, seeds_path, alarm, 12, env_extra) for i, sh in enumerate(shards) if sh]
         for i, f in enumerate(futs):
             lines, cr = f.result()
             p = chk.path(f"{tag}-trace-{i}.ndjson")
@@ -182,3 +182,38 @@ def crash_signature(prop, c):
     sig = re.sub(r"-?\d+", "N", c["sig"])
     frames = ",".join(c["frames"]) or "no-repo-frame"
     return f"{prop}:{c['kind']}:{sig}:{frames}"
+
+
+# A second heap fill pattern: ASan fills fresh allocations with malloc_fill_byte (0xbe by default).
+# What a parser or a default-constructed object reports must not depend on it; if it does, a
+# member is read without having been initialised (undefined behaviour the sanitizers do not flag
+# for plain integers).
+FILL_ENV = {"ASAN_OPTIONS": SAN_ENV["ASAN_OPTIONS"] + ":malloc_fill_byte=65"}
+
+
+def determinism(chk, tag, jobs, seeds_path, first_lines):
+    """Re-run `jobs` with another heap fill byte and compare with their result lines in first_lines.
+    Returns a list of dict(job, kind, what) for outputs that differ."""
+    _, lines2, _ = run_jobs(chk, tag, jobs, seeds_path, alarm=120, env_extra=FILL_ENV)
+    a = {o["case"]: o for o in first_lines if o.get("e") in ("Seed", "Obj")}
+    res = []
+    for o2 in lines2:
+        o1 = a.get(o2.get("case"))
+        if not o1 or o2.get("e") not in ("Seed", "Obj"):
+            continue
+        if o2["e"] == "Seed":
+            d1 = dict(x.split("=", 1) for x in o1.get("dig", "").split(",") if "=" in x)
+            d2 = dict(x.split("=", 1) for x in o2.get("dig", "").split(",") if "=" in x)
+            for cls in sorted(d1):
+                if cls in d2 and d1[cls] != d2[cls]:
+                    res.append({"case": o2["case"], "cls": cls, "field": "", "what": f"X1 of {cls} for seed {o2['seed']} ({o2.get('src')}) depends on the heap fill pattern"})
+        else:
+            g1 = dict(x.split("=", 1) for x in o1.get("g", []))
+            g2 = dict(x.split("=", 1) for x in o2.get("g", []))
+            for f in sorted(g1):
+                if f in g2 and g1[f] != g2[f]:
+                    res.append({"case": o2["case"], "cls": o2["cls"], "field": f,
+                                "what": f"getter {f} of a {o2['cls']} built from plan {o2['vals']} reports {g1[f]!r} vs {g2[f]!r} depending on the heap fill pattern"})
+            if not g1 and o1.get("x1") != o2.get("x1"):
+                res.append({"case": o2["case"], "cls": o2["cls"], "field": "", "what": f"X1 of {o2['cls']} depends on the heap fill pattern"})
+    return res
